@@ -43,6 +43,29 @@ Theorem c16_chunk_overshoot : forall szf m b, b <> [] -> chunk_bounded szf m b -
 Proof. exact chunk_bounded_overshoot. Qed.
 Print Assumptions c16_chunk_overshoot.
 
+(* the chunk container's byte counter is, at every moment of every schedule, the sum of the sizes of the
+   tasks currently in the container (reset in the critical section that removes them, not later) *)
+Theorem c16_container_size_inv : forall cf s, reachable cf s ->
+  chunk cf = true -> c_size (s_cont s) = sumsz (sz cf) (c_tasks (s_cont s)).
+Proof. exact container_size_inv. Qed.
+Print Assumptions c16_container_size_inv.
+
+(* every path that takes tasks out of the container through Flush (external Flush, Wait, the flusher's
+   tick arm and its deferred Flush: L2..L5 of any continuation) and the flusher after enterExecution are
+   counted by the WaitGroup for as long as they hold the tasks ... *)
+Theorem c16_flush_paths_counted : forall cf s t, reachable cf s -> In t (s_threads s) ->
+  entered t = 1%nat -> (1 <= s_wg s)%nat.
+Proof. exact entered_counted. Qed.
+Print Assumptions c16_flush_paths_counted.
+
+(* ... hence when a Wait returns no such thread exists: whatever a tick or an explicit Flush removed
+   before has finished executing *)
+Theorem c16_wait_covers_flush_paths : forall cf s i snap s', reachable cf s ->
+  nth_error (s_threads s) i = Some (TW3 snap) -> step cf s (LT i AGo) = Some s' ->
+  forall t, In t (s_threads s) -> entered t = 0%nat.
+Proof. exact wait_return_none_entered. Qed.
+Print Assumptions c16_wait_covers_flush_paths.
+
 (* the WaitGroup counter never goes negative *)
 Theorem c16_no_panic : forall cf s, reachable cf s -> s_panicked s = false.
 Proof. exact no_panic. Qed.
